@@ -1,5 +1,6 @@
 import GoMailModel.Smtp.Send
 import GoMailModel.Proofs.Legal6
+import GoMailModel.Proofs.AcksDial
 /-
   C03 — The server only ever commits complete messages; IsDelivered tells the truth.
   (First group: what sendSingleMsg reports. The trace-level statement — every end-of-data marker is
@@ -83,5 +84,66 @@ theorem eod_only_behind_complete_content (cfg : DialCfg) (script : List Act) (ca
     simp only [J.step, hs, Bool.false_eq_true, if_false, Bool.or_eq_false_iff] at h1
     cases htx : (judge pre).tx <;> simp [htx] at h1
     rfl
+
+
+/-! ### IsDelivered if and only if acknowledged; each message at most once
+
+`acks` (Proofs/Acks.lean) reads the event trace a second time, independently of the legality
+automaton: it remembers which message's COMPLETE content was handed to the DATA stream last and
+records that message when the end-of-data marker that follows is answered 250 (the only reply
+`dataCloser.Close` accepts: textproto's ReadResponse(250)). -/
+
+/-- sendSingleMsg, any configuration, any connection state without an unanswered end-of-data marker,
+    any server script: the message is reported delivered if and only if the server acknowledged
+    ITS end-of-data marker during this call - and then exactly once. -/
+theorem delivered_iff_acknowledged (cfg : SendCfg) (c : Conn) (idx : Nat) (m : MsgIn)
+    (hp : (acks c.trace).pend = false) :
+    ((sendOne cfg c idx m false).2.delivered = true ↔
+      (acks (sendOne cfg c idx m false).1.trace).acked = (acks c.trace).acked ++ [idx]) ∧
+    ((sendOne cfg c idx m false).2.delivered = false ↔
+      (acks (sendOne cfg c idx m false).1.trace).acked = (acks c.trace).acked) := by
+  have h := (sendOne_acks cfg c idx m hp).2
+  cases hd : (sendOne cfg c idx m false).2.delivered
+  · rw [hd] at h
+    simp only [Bool.false_eq_true, if_false, List.append_nil] at h
+    refine ⟨⟨fun x => (by cases x), fun x => ?_⟩, ⟨fun _ => h, fun _ => rfl⟩⟩
+    rw [h] at x
+    have := congrArg List.length x
+    simp at this
+  · rw [hd] at h
+    simp only [if_true] at h
+    refine ⟨⟨fun _ => h, fun _ => rfl⟩, ⟨fun x => (by cases x), fun x => ?_⟩⟩
+    rw [h] at x
+    have := congrArg List.length x
+    simp at this
+
+/-- **DialAndSend: the acknowledged messages are exactly the delivered ones.** For every
+    configuration (TLS policy, authentication, DSN, NOOP check), every server script (expected
+    replies, 4yz, 5yz, garbage, disconnects, stalls, a server that stops reading - at any position),
+    every capability list and every batch: the list of messages whose end-of-data marker the server
+    answered with 250 is the list of batch positions reported IsDelivered, in batch order. -/
+theorem acknowledged_are_the_delivered (cfg : DialCfg) (script : List Act) (caps : List Bytes) (ms : List MsgIn) :
+    (acks (dialAndSend cfg script caps ms).conn.trace).acked = deliveredIdx 0 (dialAndSend cfg script caps ms).msgs :=
+  dialAndSend_acks cfg script caps ms
+
+/-- ... so batch position k was acknowledged if and only if the k-th message reports IsDelivered ... -/
+theorem acknowledged_iff_delivered (cfg : DialCfg) (script : List Act) (caps : List Bytes) (ms : List MsgIn) (k : Nat) :
+    k ∈ (acks (dialAndSend cfg script caps ms).conn.trace).acked ↔
+      ∃ o, (dialAndSend cfg script caps ms).msgs[k]? = some o ∧ o.delivered = true := by
+  rw [acknowledged_are_the_delivered, mem_deliveredIdx]
+  simp
+
+/-- ... and no message is committed twice in one call: the acknowledged positions are strictly increasing. -/
+theorem committed_at_most_once (cfg : DialCfg) (script : List Act) (caps : List Bytes) (ms : List MsgIn) :
+    (acks (dialAndSend cfg script caps ms).conn.trace).acked.Pairwise (· < ·) := by
+  rw [acknowledged_are_the_delivered]
+  exact deliveredIdx_pairwise 0 _
+
+/-- non-vacuity: a batch of two; the only recipient of the first message is refused (550), the second
+    message goes through. One end-of-data marker is acknowledged, and it is the second message's. -/
+example :
+    (acks (dialAndSend {} [.ok, .ok, .ok, .ok, .reply 550 (sb "no"), .ok, .ok, .ok, .ok, .ok, .ok, .ok, .ok, .ok, .ok] []
+      [{ sender := some (sb "a@b.c"), rcpts := [sb "x@y.z"] }, { sender := some (sb "a@b.c"), rcpts := [sb "x@y.z"] }]).conn.trace).acked = [1] := by
+  decide
 
 end GoMail.Props.C03
